@@ -307,7 +307,7 @@ func checkCheckSwap(c *core.Ctx) {
 	}
 	var pIn, pOut *ssa.Parameter
 	for _, p := range fn.Params {
-		switch p.Name() {
+		switch core.ParamName(p) {
 		case "valueIn":
 			pIn = p
 		case "valueOut":
@@ -318,19 +318,35 @@ func checkCheckSwap(c *core.Ctx) {
 		c.Unk("C15.checkswap", "CheckSwap/params", fn.Pos(), "parameters valueIn / valueOut not found")
 		return
 	}
-	look := func(p *ssa.Parameter, wantOp token.Token, wantK int64, what string) {
+	// the comparison may sit in CheckSwap itself or in a helper of the same package the parameter
+	// is handed to and whose result CheckSwap returns (CheckSwap split into a buy and a sell half)
+	var search func(p *ssa.Parameter, wantOp token.Token, wantK int64, depth int) bool
+	search = func(p *ssa.Parameter, wantOp token.Token, wantK int64, depth int) bool {
 		found := false
 		forward(p, func(user ssa.Instruction, as ssa.Value) {
 			call, ok := user.(*ssa.Call)
-			if !ok || core.CalleeName(&call.Call) != "(*math/big.Int).Cmp" || len(call.Call.Args) != 2 || call.Call.Args[1] != as {
+			if !ok {
 				return
 			}
-			op, k, _ := cmpRejects(call)
-			if op == wantOp && k == wantK {
-				found = true
+			if core.CalleeName(&call.Call) == "(*math/big.Int).Cmp" && len(call.Call.Args) == 2 && call.Call.Args[1] == as {
+				op, k, _ := cmpRejects(call)
+				if op == wantOp && k == wantK {
+					found = true
+				}
+				return
+			}
+			if sc := call.Call.StaticCallee(); sc != nil && depth < 2 && sc.Blocks != nil && core.PkgOf(sc) == core.PkgOf(p.Parent()) && returnsResultOf(p.Parent(), call) {
+				for i, a := range call.Call.Args {
+					if a == as && i < len(sc.Params) && search(sc.Params[i], wantOp, wantK, depth+1) {
+						found = true
+					}
+				}
 			}
 		})
-		c.Check(found, "C15.checkswap", "CheckSwap/"+what, fn.Pos(), "calculated.Cmp("+p.Name()+") "+wantOp.String()+" "+fmt.Sprint(wantK)+" ⇒ reject", "CheckSwap no longer rejects when the calculated amount violates "+p.Name())
+		return found
+	}
+	look := func(p *ssa.Parameter, wantOp token.Token, wantK int64, what string) {
+		c.Check(search(p, wantOp, wantK, 0), "C15.checkswap", "CheckSwap/"+what, fn.Pos(), "calculated.Cmp("+core.ParamName(p)+") "+wantOp.String()+" "+fmt.Sprint(wantK)+" ⇒ reject", "CheckSwap no longer rejects when the calculated amount violates "+core.ParamName(p))
 	}
 	look(pOut, token.EQL, -1, "minimum-to-buy")
 	look(pIn, token.EQL, 1, "maximum-to-sell")
@@ -762,4 +778,25 @@ func checkComPool(c *core.Ctx, rule string, m *RunModel) int {
 		}
 	}
 	return n
+}
+
+// returnsResultOf: some return of fn hands back (the first result of) call.
+func returnsResultOf(fn *ssa.Function, call *ssa.Call) bool {
+	for _, r := range core.Returns(fn) {
+		for _, res := range r.Results {
+			for _, o := range append([]ssa.Value{res}, core.Origins(res)...) {
+				switch x := core.Unwrap(o).(type) {
+				case *ssa.Call:
+					if x == call {
+						return true
+					}
+				case *ssa.Extract:
+					if x.Tuple == ssa.Value(call) {
+						return true
+					}
+				}
+			}
+		}
+	}
+	return false
 }
